@@ -264,6 +264,11 @@ func (tst *tsTable) TakeFileSnapshot(dst string) (success bool, err error) {
 func (tst *tsTable) createMetadata(dst string, snapshot *snapshot) {
 	var partNames []string
 	for i := range snapshot.parts {
+		if snapshot.parts[i].mp != nil {
+			// Memory parts are not hard-linked into the copy; listing them would
+			// make the manifest name parts the copy does not contain.
+			continue
+		}
 		partNames = append(partNames, partName(snapshot.parts[i].ID()))
 	}
 	data, err := json.Marshal(partNames)
